@@ -240,6 +240,15 @@ def run(E: Engine, rep: Report, tier: str) -> dict:
                 rep.check(same, "GUARD", f"_construct_hamiltonian|coefficient-array-has-grid-length|{sh(t, 40)}", "np.ones(self._duration): one entry per sampling time", f"the coefficient array `{sh(t, 60)}` does not have the length of the sampling grid (np.arange(self._duration)): _adapt_to_sampling_rate maps it onto the grid by proportional indices, so its values are read one sample late and the interaction of a masked atom stays off for one sample after the SLM mask ended", E.where(ch, l.node))
     if n_arr < 1:
         rep.error("no coefficient array built for _adapt_to_sampling_rate found in _construct_hamiltonian")
+    # the emulator works on the samples whose Global-channel slots were re-targeted to the register it was given
+    # (replace(sampled_seq, samples_list=<adapted>)), not on the samples as they came in
+    qe = E.fn("pulser_simulation.simulation.QutipEmulator.__init__")
+    sso = [l for l in S(E, qe).logged("store") if l.target == ("attr", ("name", "self"), "samples_obj")]
+    if not sso:
+        raise AnalysisError("anchor: QutipEmulator.__init__ no longer stores self.samples_obj")
+    for l in sso:
+        adapted = any(t[0] == "call" and t[1] == ("name", "replace") and dict(t[3]).get("samples_list") is not None for t in sym.subterms(l.value))
+        rep.check(adapted, "FLOW", "QutipEmulator.__init__|samples_obj-from-retargeted-samples", "self.samples_obj derives from replace(sampled_seq, samples_list=<slots re-targeted to the register>)", f"self.samples_obj is `{sh(l.value, 100)}`: the samples as given, not the copy whose Global slots target the qubits of the register handed to the emulator -- with another register (reordered / extra atoms) the mask and per-atom views use the old targets", E.where(qe, l.node))
     # per-run noise state: it is reset by set_config exactly when _update_noise will not redraw it
     un = E.method(HAM, "_update_noise")
     sc = E.method(HAM, "set_config")
